@@ -1,17 +1,37 @@
 SPEC_PART = dict(
     props_file="C14_cpc",
-    legs=[dict(family="cpc", focus="malformed", oracles=["malformed_ok"], profiles=["debug", "release"], n_quick=None, n_thorough=None, coq_sample=1,
-               mask=[0, 1, 2, 3, 4, 5, 8], panic_is_violation=True)],
-    trusted=["cpc: the reader (CpcSketch::deserialize, CompressedState::uncompress) has no Coq model; 'never panics' is "
-             "observed by the harness on mutated images (debug and release, counting allocator), not proved",
-             "cpc: PairTable's slot layout (set model) as in C05"],
-    assumptions=[],
-    covers="cpc (partial): Ok => wf => usable is carried by theorems - every state deserialize returns as Ok is dumped and run "
+    legs=[dict(family="cpc", focus="malformed", oracles=["malformed_ok"], tie_oracles=["malformed_tie_ok"], profiles=["debug", "release"], n_quick=None, n_thorough=None, coq_sample=1,
+               mask=[0, 1, 2, 3, 4, 5, 8], panic_is_violation=True),
+          # the images at the edge of the domain once more, judged by the exact tie alone (the strict oracle's failure on these
+          # cases, a known finding, would hide a failing tie): the use phase fails exactly when the model is Stuck
+          dict(family="cpc", focus="malformed_edge", oracles=[], tie_oracles=["malformed_tie_ok"], profiles=["debug", "release"],
+               n_quick=None, n_thorough=None, coq_sample=1, mask=[0, 1, 2, 3, 4, 5, 8], panic_is_violation=True)],
+    trusted=["cpc: the reader (CpcSketch::deserialize, CompressedState::uncompress) and CpcWrapper::new have NO Coq model; 'never "
+             "panics' is observed by the harness on mutated images (debug and release, counting allocator), not proved",
+             "cpc: PairTable's slot layout (set model) as in C05",
+             "cpc: the use phase is a fixed script (40 pairs via the hook verif_row_col_update, estimate, bounds, validate, "
+             "serialize + deserialize, union of the value with its updated copy), not every possible use"],
+    assumptions=["cpc: c14_cpc_checked_state_usable has the hypotheses of C05 on the FURTHER pairs: 8 * (C + 1) < 475 * K at every "
+                 "step (window offset <= 56) and cpc_fits (the surprising values never outgrow the table's capacity "
+                 "3/4 * 2^min(26, lg_k+5)); an accepted image next to either edge is valid and the next updates panic: known "
+                 "finding C14-cpc-image-at-table-capacity"],
+    covers="cpc (PARTIAL: there is no Coq model of the reader; what is proved is about the VALUE it returns, what is observed is "
+           "the reader's behaviour on generated inputs). Theorems - every state deserialize returns as Ok is dumped and run "
            "through the executable invariant check (Model/CpcCheck.v); c14_cpc_check_sound: a state that passes it satisfies the C05 "
-           "invariant for its own bit matrix; c14_cpc_checked_state_usable: such a state validates, is a valid union input and accepts "
-           "every further valid pair without reaching a panic site. Tie: single- and double-field mutations (bit flips, byte "
-           "sets, boundary values in every u32 field, truncation at every offset, extension) of the real images of sketches of every "
-           "flavor (lg_k 4..12) and raw/hand-made headers: the outcome must be Err or a checked Ok value, never a panic, abort or an "
-           "allocation above 64*|input| + 1 MiB; each Ok value is then used (estimate, bounds, validate, 40 updates, serialize + "
-           "deserialize, union, CpcWrapper)",
+           "invariant for its own bit matrix; c14_cpc_checked_state_usable: such a state validates, is a valid union input, and "
+           "accepts further valid pairs without reaching a panic site PROVIDED THAT the pairs keep it inside the C05 domain: "
+           "8 * (C + 1) < 475 * K before every pair and cpc_fits for the stream (both are hypotheses of the theorem; at the edge "
+           "they fail and the crate panics: lg_k 4, C = 949 is accepted and the next updates panic - known finding, matched only "
+           "when the exact matrix of the accepted dump says the harness's pairs leave the domain). Tie: single- and double-field "
+           "mutations (bit flips, byte sets, boundary values in every u32 field, truncation at every offset, extension) of the real "
+           "images of sketches of every flavor (lg_k 4..12), the sketch's own images next to offset 56 and next to the table "
+           "capacity, and raw/hand-made headers (lg_k, first interesting column and flags bytes varied): the outcome must be Err or "
+           "a checked Ok value, never a panic, abort or an allocation above 64*|input| + 1 MiB; each Ok value is then used under an "
+           "inner catch_unwind: oracle malformed_ok demands that the use succeeds (its failures at the edge are the known finding), "
+           "oracle malformed_tie_ok that it fails exactly when the Coq model is Stuck on the same 40 pairs / the same union (run "
+           "once more on the edge images alone, where no other oracle can hide it). CpcWrapper: on every accepted image "
+           "CpcWrapper::new must be Ok and report the sketch's lg_k, is_empty, estimate and 2-sigma lower/upper bounds bit for bit "
+           "(observed, no theorem; the 1- and 3-sigma bounds are not compared); on rejected images the wrapper's outcome is only "
+           "recorded: it reads the preamble alone and accepts most images whose streams deserialize rejects (798 of 1256 rejected "
+           "images in the quick run), so 'wrapper Err iff deserialize Err' does NOT hold and is not claimed",
 )
